@@ -61,6 +61,7 @@ def g_tmctor(draw, tier):
     c["given"] = draw(st.sampled_from(["both", "rdims", "cdims"]))
     c["tshape_arg"] = draw(st.sampled_from(["tuple", "array"]))
     c["copy_kw"] = draw(st.booleans())
+    c["_present"] = R.d_present(draw, values=["data"], indices=["rdims", "cdims", "tshape"])
     return c
 
 
@@ -71,20 +72,21 @@ def _(ctx, c):
         D = np.ascontiguousarray(D)
     elif c["layout"] == "1d":
         D = D.reshape(-1, order="F").copy()
+    D = R.presented(ctx, c, "data", D)
     ops = {"data": D}
     kw = {}
     if c["given"] in ("both", "rdims"):
-        kw["rdims"] = np.array(c["rdims"], dtype=int)
+        kw["rdims"] = R.presented(ctx, c, "rdims", np.array(c["rdims"], dtype=int))
         ops["rdims"] = kw["rdims"]
     if c["given"] in ("both", "cdims"):
-        kw["cdims"] = np.array(c["cdims"], dtype=int)
+        kw["cdims"] = R.presented(ctx, c, "cdims", np.array(c["cdims"], dtype=int))
         ops["cdims"] = kw["cdims"]
     # with only one side given the other side is taken in increasing order
     if c["given"] == "rdims" and c["cdims"] != sorted(c["cdims"]):
         return None
     if c["given"] == "cdims" and c["rdims"] != sorted(c["rdims"]):
         return None
-    ts = tuple(c["shape"]) if c["tshape_arg"] == "tuple" else np.array(c["shape"])
+    ts = tuple(c["shape"]) if c["tshape_arg"] == "tuple" else R.presented(ctx, c, "tshape", np.array(c["shape"]))
     if c["tshape_arg"] == "array":
         ops["tshape"] = ts
     if c["copy_kw"]:
@@ -271,7 +273,7 @@ def _(ctx, c):
     X = TM(c)
     key, _ = CT.build_key(c["key"])
     ctx.label(key2_label(c["key"]), "value-" + c["vform"])
-    v = c["value"] if c["vform"] == "scalar" else np.array(c["value"], dtype=float).reshape(c["vshape"])
+    v = c["value"] if c["vform"] == "scalar" else R.CS.aux_present(c, np.array(c["value"], dtype=float).reshape(c["vshape"]))
     return {"self": X, "key": key, "value": v}, lambda: X.__setitem__(key, v)
 
 
@@ -331,6 +333,7 @@ def g_stmctor(draw, tier):
     c["dup"] = draw(st.lists(st.integers(0, max(0, k - 1)), min_size=0, max_size=2)) if k else []
     c["dupvals"] = R.d_vals(draw, len(c["dup"]), c["vkind"])
     c["copy_kw"] = draw(st.booleans())
+    c["_present"] = R.d_present(draw, values=["vals"], indices=["subs", "rdims", "cdims"])
     return c
 
 
@@ -342,6 +345,8 @@ def _(ctx, c):
         subs = np.vstack([subs] + [subs[i:i + 1] for i in c["dup"]])
         vals = np.vstack([vals, np.array(c["dupvals"], dtype=float).reshape(-1, 1)])
     rd, cd = np.array(c["rdims"], dtype=int), np.array(c["cdims"], dtype=int)
+    subs, vals = R.presented(ctx, c, "subs", subs), R.presented(ctx, c, "vals", vals)
+    rd, cd = R.presented(ctx, c, "rdims", rd), R.presented(ctx, c, "cdims", cd)
     stm_labels(ctx, c)
     ctx.label("duplicates" if c["dup"] else "distinct")
     kw = {"copy": True} if c["copy_kw"] else {}
@@ -456,6 +461,6 @@ def _(ctx, c):
     X = STM(c)
     stm_labels(ctx, c)
     key, _ = CT.build_key(c["key"])
-    v = c["value"] if c["vform"] == "scalar" else np.array(c["value"], dtype=float).reshape(-1, 1)
+    v = c["value"] if c["vform"] == "scalar" else R.CS.aux_present(c, np.array(c["value"], dtype=float).reshape(-1, 1))
     ctx.label("value-" + c["vform"])
     return {"self": X, "key": key, "value": v}, lambda: X.__setitem__(key, v)
